@@ -663,6 +663,19 @@ def run_sync(world, pspec, args, kwargs):
                 while time.monotonic() < end:
                     x += 1
                 LOG("block-end", pid=pid, gen=world.gen, how="burn", cpu=time.process_time())
+            elif kind == "adopt_stream":
+                # a thread payload that keeps handing over short-lived payloads (op: flavour, pause) - also while the runtime
+                # shuts down. adopt() raising here is this payload's failure, as it would be for a user's dispatcher thread
+                n = 0
+                while not world.release.is_set() and not world.accept_done.is_set() and n < 4000:
+                    cid = "%s.w%d" % (pid, n)
+                    child = {"id": cid, "flavour": op[1], "program": [], "cleanup": {"kind": "none"}}
+                    world.payloads[cid] = child
+                    world.args[cid] = ((), {})
+                    LOG("stream-adopt", pid=cid, by=pid, gen=world.gen)
+                    world.runner.adopt(make_payload(world, child), flavour=FLAVOURS[op[1]])
+                    n += 1
+                    time.sleep(op[2])
             elif kind == "private_trio_execute":
                 # a thread payload that drives a trio run of its own; one of that run's worker threads calls execute()
                 async def _foreign_trio(children=op[1]):
@@ -820,8 +833,9 @@ def play(world, ops, by):
                 world.gate(op[1]).set()
                 LOG("gate-opened", gen=world.gen, gate=op[1], by=by)
             elif kind == "second_accept":
-                other = ServiceRunner(accept_delay=0.05)
-                LOG("call", op="second_accept", by=by, gen=world.gen)
+                # "same": the concurrent accept is made on the very runner that is accepting already
+                other = world.runner if len(op) > 1 and op[1] == "same" else ServiceRunner(accept_delay=0.05)
+                LOG("call", op="second_accept", by=by, gen=world.gen, same=other is world.runner)
                 try:
                     other.accept()
                 except BaseException as err:  # noqa: B036
